@@ -186,9 +186,12 @@ def _expr_simp(e):
                 elif op == '|':
                     o = i1.arg | i2.arg
                 elif op == '>>':
-                    o = i1.arg >> i2.arg
+                    o = i2.arg >> i1.arg
                 elif op == '<<':
-                    o = i1.arg << i2.arg
+                    if i1.arg >= i2.get_size():
+                        o = 0
+                    else:
+                        o = i2.arg << i1.arg
 
                 o = ExprInt(tab_size_int[i1.get_size()](o))
                 args.append(o)
